@@ -71,8 +71,13 @@ def names_of(f):
     return out
 
 
+def ptypes(f):
+    return [p.get("ty") or "" for p in f.get("params", [])]
+
+
 def build(functions, root):
-    """reference table from the functions of one Facts object: fkey -> distinct name lists (one per overload)"""
+    """reference table from the functions of one Facts object: fkey -> one entry per distinct name list (one per overload):
+    {"n": names, "t": [parameter type lists seen, at most 8]} -- the types only break ties between overloads"""
     t = {}
     for f in functions:
         if rel(f["file"], root) == f["file"]:
@@ -81,8 +86,13 @@ def build(functions, root):
         if not any(ns):
             continue
         ent = t.setdefault(fkey(f, root), [])
-        if ns not in ent:
-            ent.append(ns)
+        hit = [e for e in ent if e["n"] == ns]
+        if not hit:
+            hit = [{"n": ns, "t": []}]
+            ent.append(hit[0])
+        ty = ptypes(f)
+        if ty not in hit[0]["t"] and len(hit[0]["t"]) < 8:
+            hit[0]["t"].append(ty)
     return t
 
 
@@ -181,17 +191,20 @@ def normalise(fx, root, notes=None):
         if not ent:
             continue
         cur = names_of(f)
-        if cur in ent:
+        ent = [e if isinstance(e, dict) else {"n": e, "t": []} for e in ent]      # (older tables: bare name lists)
+        if any(e["n"] == cur for e in ent):
             continue
-        # the overload this is: the reference list sharing the most names in order; it must be the only best one
+        # the overload this is: the reference list sharing the most names in order (ties: the one with this parameter type
+        # list, then the one of the same length); it must be the only best one
+        ty = ptypes(f)
         scored = []
-        for r in ent:
-            pr = lcs_pairs(r, cur)
-            scored.append((len(pr) if pr is not None else -1, -abs(len(r) - len(cur)), r))
-        scored.sort(key=lambda x: (x[0], x[1]), reverse=True)
-        if len(scored) > 1 and scored[0][:2] == scored[1][:2]:
+        for e in ent:
+            pr = lcs_pairs(e["n"], cur)
+            scored.append((len(pr) if pr is not None else -1, 1 if ty in e["t"] else 0, -abs(len(e["n"]) - len(cur)), e["n"]))
+        scored.sort(key=lambda x: x[:3], reverse=True)
+        if len(scored) > 1 and scored[0][:3] == scored[1][:3]:
             continue
-        mp = mapping(scored[0][2], cur)
+        mp = mapping(scored[0][3], cur)
         if mp:
             maps[f["key"]] = (f, mp)
     for key, (f, mp) in maps.items():
